@@ -88,7 +88,7 @@ def answer (line : String) : String :=
     match hexField p, parseSels s, parseFiles f with
     | some prog, some sels, some files => answerRun prog sels files flags
     | _, _, _ => "R class=badrequest"
-  | ["cli", a, i, f, _flags] =>
+  | ["cli", a, i, f, flags] =>
     let argv? : Option (List Bytes) :=
       if a == "-" then some [] else (a.splitOn ",").mapM fun x => if x == "e" then some [] else hexField x
     let stdin? : Option Bytes := if i == "-" || i == "e" then some [] else hexField i
@@ -104,9 +104,22 @@ def answer (line : String) : String :=
       match Cli.run tbl argv stdin fs with
       | .unmodelled => "R class=unmodelled why=cli"
       | .done exit out err written =>
-        let (of, ofe) := match written with
-          | some (_, j) => (showHex j, "1")
+        -- `ofile` is what the file named by the o= flag holds after the run: what -o wrote
+        -- into it, else what it held before (a regular file of the working directory)
+        let oname? : Option Bytes :=
+          if flags == "-" then none else
+          (flags.splitOn ",").findSome? fun fl =>
+            match fl.splitOn "=" with
+            | ["o", h] => hexField h
+            | _ => none
+        let before : String × String := match oname? with
+          | some n => (match Cli.lookup fs n with
+            | some e => if e.isDir then ("-", "0") else (showHex e.data, "1")
+            | none => ("-", "0"))
           | none => ("-", "0")
+        let (of, ofe) := match written with
+          | some (n, j) => if oname?.isNone || oname? == some n then (showHex j, "1") else before
+          | none => before
         s!"R exit={exit} out={showHex out} err={if err then 1 else 0} ofile={of} ofexists={ofe} class=cli{exit}"
     | _, _, _ => "R class=badrequest"
   | ["parse", p] =>
